@@ -192,6 +192,8 @@ def known_lookup(prop, signature):
 # ---------------------------------------------------------------------------------------- replay
 def write_replay(prop, signature, witness):
     d = os.path.join(VERIF, "replays")
+    if os.path.realpath(REPO) != "/repo":
+        d = "/var/tmp/pyunicorn-verif-alt-evidence/replays"
     os.makedirs(d, exist_ok=True)
     safe = "".join(c if c.isalnum() or c in "-_." else "_" for c in signature)[:120]
     path = os.path.join(d, f"{safe}.json")
@@ -274,6 +276,10 @@ def write_evidence(prop, tier, results, wall, extra):
         },
     }
     path = os.path.join(VERIF, "evidence", f"{prop}.json")
+    if os.path.realpath(REPO) != "/repo":
+        # a run against a scratch tree (seeded change) must not overwrite the registered evidence
+        os.makedirs("/var/tmp/pyunicorn-verif-alt-evidence", exist_ok=True)
+        path = os.path.join("/var/tmp/pyunicorn-verif-alt-evidence", f"{prop}.json")
     with open(path, "w") as f:
         json.dump(jsonable(ev), f, indent=1)
     return path
